@@ -3,7 +3,7 @@
     comments of the dispatch tables in coq/Driver*.v, so these files are the single registry.
     Per-property tables live in DriverCxx.v ([dispatch_cxx : Z -> val -> option val], None for
     an id they do not own) and are chained in [dispatch] below. *)
-From SE Require Import Base Codecs Fat Stream Transcode Cue Names AkaiImage DriverBase.
+From SE Require Import Base Codecs Fat Stream Transcode Cue Names AkaiImage Container StreamProofs DriverBase.
 From SE Require DriverC20 DriverC04.
 
 Definition dispatch_core (id : Z) (a : val) : option val :=
@@ -74,6 +74,11 @@ Definition dispatch_core (id : Z) (a : val) : option val :=
       vres (fun l => VL (map (fun p => VL [vlistZ (fst p);
                  VL (map (fun v => VL [vlistZ (fst v); VL (map vlistZ (snd v))]) (snd p))]) l))
            (akai_listing (unimg a))
+  | 630 (* detect_container *) =>
+      VI (match detect (unVLZ a) with CMdf => 1 | CMdx => 2 | CRaw => 0 end)
+  | 631 (* wrap_2352 *) => vlistZ (wrap_2352 (unVLZ a))
+  | 632 (* wrap_mdx *) => vlistZ (wrap_mdx (unVLZ a))
+  | 633 (* container_logical *) => vlistZ (logical (container_view (unVLZ a)) (unVLZ a))
   | _ => vbad
   end).
 
